@@ -186,9 +186,83 @@ func (d *deepView) strLang(v ssa.Value, fr *frame, depth int) []seg {
 				return out
 			}
 			return opaque()
+		case "strings.Builder.String":
+			if out, ok := d.builderLang(x, r.fr, depth); ok {
+				return out
+			}
+			return opaque()
 		}
 	}
 	return opaque()
+}
+
+// builderLang: the text of a local strings.Builder at a String() call: the
+// concatenation of what the WriteString / WriteByte / WriteRune calls on it put
+// in, when every one of them is made exactly once before the String call
+// (straight-line code of the same activation, no loop, no reset, the builder is
+// not handed to anything else).
+func (d *deepView) builderLang(str *ssa.Call, fr *frame, depth int) ([]seg, bool) {
+	if len(str.Call.Args) == 0 {
+		return nil, false
+	}
+	a, ok := str.Call.Args[0].(*ssa.Alloc)
+	if !ok || a.Parent() != fr.fn {
+		return nil, false
+	}
+	var writes []*ssa.Call
+	for _, ref := range *a.Referrers() {
+		switch y := ref.(type) {
+		case *ssa.DebugRef:
+		case *ssa.Call:
+			if y.Call.IsInvoke() || len(y.Call.Args) == 0 || y.Call.Args[0] != ssa.Value(a) {
+				return nil, false
+			}
+			for _, other := range y.Call.Args[1:] {
+				if other == ssa.Value(a) {
+					return nil, false
+				}
+			}
+			switch ir.CallID(y) {
+			case "strings.Builder.String", "strings.Builder.Len", "strings.Builder.Cap", "strings.Builder.Grow":
+			case "strings.Builder.WriteString", "strings.Builder.WriteByte", "strings.Builder.WriteRune":
+				before := y.Block() == str.Block() && precedes(y, str) || y.Block() != str.Block() && y.Block().Dominates(str.Block())
+				if !before || inLoop(fr.fn, y.Block()) {
+					return nil, false
+				}
+				writes = append(writes, y)
+			default:
+				return nil, false
+			}
+		default:
+			return nil, false
+		}
+	}
+	if inLoop(fr.fn, str.Block()) {
+		return nil, false
+	}
+	// all of them dominate the String call, so they are totally ordered
+	for i := 1; i < len(writes); i++ {
+		for j := i; j > 0; j-- {
+			p, q := writes[j-1], writes[j]
+			if q.Block() == p.Block() && precedes(q, p) || q.Block() != p.Block() && q.Block().Dominates(p.Block()) {
+				writes[j-1], writes[j] = q, p
+			}
+		}
+	}
+	var out []seg
+	for _, w := range writes {
+		arg := w.Call.Args[1]
+		if ir.CallID(w) == "strings.Builder.WriteString" {
+			out = append(out, d.strLang(arg, fr, depth+1)...)
+			continue
+		}
+		if k, isK := ir.ConstInt(d.resolveConv(arg, fr).v); isK && k > 0 && (k < 0x80 || k < 0x110000 && ir.CallID(w) == "strings.Builder.WriteRune") {
+			out = append(out, seg{kind: "lit", lit: string(rune(k))})
+			continue
+		}
+		out = append(out, seg{kind: "var", val: arg, fr: fr, note: "opaque character"})
+	}
+	return out, true
 }
 
 // hexOfBytes: the lower-case hexadecimal rendering of a byte sequence, as hex
